@@ -233,7 +233,7 @@ func enumerateClearsignFaults(b SignBase, thorough bool, yield func(ClearsignCas
 		crcAt = k + 2
 	}
 	for i := 0; crcAt >= 0 && i < 4; i++ {
-		for _, repl := range []byte{'A', 'b', '7', '/'} {
+		for _, repl := range []byte{'A', 'b', '7', '/', '=', '+', '-', '!', '_'} {
 			if signed[crcAt+i] == repl {
 				continue
 			}
